@@ -138,6 +138,7 @@ def _string_case(ch):
     return {"text": text, "entry": entry, "kind": kind, "tokens": tokens}
 
 
+_BIGNUM = re.compile(r"[0-9]{3,}|[0-9][eE.]")
 _USEP = re.compile(r"from\s+(\.?[A-Za-z_](?:\.?[A-Za-z0-9_])*|\.)\s+usepulses")
 
 
@@ -147,7 +148,7 @@ def _names_missing_module(text):
 
 def strings(case):
     text, entry = case["text"], case["entry"]
-    if entry == "run" and re.search(r"[0-9]{3,}|[0-9][eE.]", text):
+    if entry == "run" and _BIGNUM.search(text):
         # honest execution cost is unbounded in the size of the numbers (2^n states, n
         # iterations): not a termination question, outside this check
         raise Skip()
@@ -247,7 +248,7 @@ def _history_case(ch):
     for _ in range(n):
         if ch.int(0, 5) == 0:
             c = _string_case(ch)
-            if len(c["text"]) < 400:
+            if len(c["text"]) < 400 and not (c["entry"] == "run" and _BIGNUM.search(c["text"])):
                 items.append([c["entry"], c["text"]])
                 continue
         e, t = ch.pick(POOL_TEXTS)
@@ -258,6 +259,8 @@ def _history_case(ch):
 def histories(case):
     hist = case["history"]
     outcomes = []
+    if any(e == "run" and _BIGNUM.search(t) for e, t in hist):
+        raise Skip()  # see `strings`: honest execution cost is unbounded in the size of the numbers
     for entry, text in hist:
         try:
             with step_budget(5000 * (len(text) + 100) + 10**6):
